@@ -37,6 +37,8 @@ pub enum VAct {
     Blk {
         secs: u64,
     },
+    /// SettleFunding sent by the configured margin engine
+    Settle,
     /// feed world
     Append {
         price: u128,
@@ -299,6 +301,7 @@ impl VWorld {
                     quote_asset_limit: Uint128::new(*limit),
                 },
             ),
+            VAct::Settle => self.exec("engine", &v, &VammExec::SettleFunding {}),
             VAct::Blk { secs } => {
                 self.tap.reset(None);
                 self.app.update_block(|b| {
